@@ -73,7 +73,13 @@ fn main() {
         std::process::exit(2);
     }
     // panics of the code under test are data: keep them off stderr, they are logged in the trace
-    std::panic::set_hook(Box::new(|_| {}));
+    // panics of the code under test are data (caught and recorded); only report those of the harness itself
+    std::panic::set_hook(Box::new(|info| {
+        let at = info.location().map(|l| l.file().to_string()).unwrap_or_default();
+        if at.starts_with("src/") && !at.contains("/repo/") && std::env::var("ACBVERIF_QUIET").is_err() {
+            eprintln!("acbverif: harness panic: {info}");
+        }
+    }));
     let threads: usize = arg(&args, "--threads").and_then(|s| s.parse().ok()).unwrap_or(8);
     match args[1].as_str() {
         "ledger-gen" => {
